@@ -11,5 +11,6 @@ CONSTANTS
   MaxPrints = 2
   MaxAuth = 0
 VIEW view
+CONSTRAINT Canon
 INVARIANTS GaugeExact
 CHECK_DEADLOCK FALSE
